@@ -8,10 +8,13 @@ non-int value (slice / other) when the label has no single position, or raises K
 """
 from __future__ import annotations
 
+import ast
+
 import z3
 
 from fsic.core.models import BaseModel
 from fsic.exceptions import SolutionError
+from pyvc import roles as R
 from pyvc import values as V
 from pyvc.contracts import Call, FunctionContract, LoopSpec
 from pyvc.ctx import OutOfSubset
@@ -183,7 +186,7 @@ class SolveContract(FunctionContract):
             e['end'] = ctx.fresh('end', STR)
             kw['end'] = SStr(e['end'])
         install_solver_calls(interp, e, locate_kinds='all' if scenario in ('start-end', 'start-only', 'end-only') else 'int')
-        self.loops = {0: self._loop(e)}
+        self.loops = {R.body_calls('solve_t'): self._loop(e)}
         interp.registry.set_loops(self.qualname, self.loops)
         e['inputs'] = dict(e['opts'], n=env.n, lags=env.lags, leads=env.leads)
         return Call([], kw, self_obj=env.obj, entry=e)
@@ -191,15 +194,24 @@ class SolveContract(FunctionContract):
     def _loop(self, e):
         env = e['env']
 
+        def roles(fr):
+            # locals by role: the three returned lists (labels, positions, flags in the order of the return statement) and the iterated object
+            fn = fr.fi.node
+            ret = R.returned_names(fn) or ['labels', 'indexes', 'solved']
+            loop = next((n for n in ast.walk(fn) if isinstance(n, ast.For) and R.body_calls('solve_t')(n)), None)
+            src = (R.iter_source_name(loop) if loop is not None else None) or 'period_iter'
+            return {'labels': ret[0], 'indexes': ret[1], 'solved': ret[2], 'period_iter': src}
+
         def inv(interp, fr, k):
             g = interp.ctx.ghost
-            pit = fr.locals['period_iter']
+            rn = roles(fr)
+            pit = fr.locals[rn['period_iter']]
             seq = pit.fields['_iter']
             cnt = V.to_int_term(pit.fields['_length'])
             out = [('one_call_per_visited_period', g['ncalls'] == k),
                    ('length_is_number_of_periods', z3.And(cnt == seq.length, cnt >= 0, k <= cnt))]
             for nme, kind in (('indexes', 'int'), ('labels', 'str'), ('solved', 'bool')):
-                lst = fr.locals[nme]
+                lst = fr.locals[rn[nme]]
                 out.append((f'{nme}_has_one_slot_per_period', lst.length == cnt))
             j = z3.Int('j!inv')
 
@@ -207,7 +219,7 @@ class SolveContract(FunctionContract):
                 t, lab = seq.element(jj)
                 return V.to_int_term(t), V.z3_of(lab)
             if k is not None and (not z3.is_int_value(z3.simplify(k)) or z3.simplify(k).as_long() > 0):
-                ix, lb, sv = fr.locals['indexes'], fr.locals['labels'], fr.locals['solved']
+                ix, lb, sv = fr.locals[rn['indexes']], fr.locals[rn['labels']], fr.locals[rn['solved']]
                 out.append(('calls_so_far_are_the_periods_in_order',
                             z3.ForAll([j], z3.Implies(z3.And(0 <= j, j < k), z3.Select(g['Lt'], j) == elem(j)[0]))))
                 if ix.arr is not None and lb.arr is not None and sv.arr is not None:
@@ -225,10 +237,12 @@ class SolveContract(FunctionContract):
             g = ctx.ghost
             g['ncalls'] = ctx.fresh('ncalls', INT)
             g['Lt'] = ctx.fresh('Lt!loop', z3.ArraySort(INT, INT))
-            for nme, kind in (('indexes', 'int'), ('labels', 'str'), ('solved', 'bool')):
+            rn = roles(fr)
+            for role, kind in (('indexes', 'int'), ('labels', 'str'), ('solved', 'bool')):
+                nme = rn[role]
                 lst = fr.locals[nme]
-                fr.locals[nme] = SOptList(lst.length, kind, ctx.fresh(nme + '.data', z3.ArraySort(INT, V._SORT_OF_KIND[kind])),
-                                          ctx.fresh(nme + '.isset', z3.ArraySort(INT, BOOL)))
+                fr.locals[nme] = SOptList(lst.length, kind, ctx.fresh(role + '.data', z3.ArraySort(INT, V._SORT_OF_KIND[kind])),
+                                          ctx.fresh(role + '.isset', z3.ArraySort(INT, BOOL)))
 
         return LoopSpec(invariant=inv, havoc=havoc, props=('C05',))
 
